@@ -308,6 +308,59 @@ func runC10(w *World, r *Report) {
 		r.Anchor("R-C10-2", "Emit(bytecode.Try) in package compiler")
 	}
 
+	// ---- R-C10-4: the catch address of a Try lies before a TryPop
+	r.Rule("R-C10-4", "catch path pops the try: where the address taken just before Emit(Try) is patched (SetAddressHere), every path to a possibly-successful return still emits TryPop, so the error path of the generated code passes a TryPop too", 4)
+
+	for _, fn := range w.srcFuncs(cp) {
+		// the Mark() values taken immediately before an Emit(Try)
+		marks := map[ssa.Value]bool{}
+
+		for _, b := range fn.Blocks {
+			var last ssa.Value
+
+			for _, in := range b.Instrs {
+				if c, ok := in.(*ssa.Call); ok && callID(c.Common()) == "internal/language/bytecode.ByteCode.Mark" {
+					last = c
+				}
+
+				if emitOf(in) == opTry && last != nil {
+					marks[last] = true
+				}
+			}
+		}
+
+		if len(marks) == 0 {
+			continue
+		}
+
+		n := 0
+
+		allInstrs(fn, func(in ssa.Instruction) {
+			c, ok := in.(*ssa.Call)
+			if !ok || callID(c.Common()) != "internal/language/bytecode.ByteCode.SetAddressHere" || len(c.Call.Args) < 2 {
+				return
+			}
+
+			if !marks[resolveLocal(c.Call.Args[1])] {
+				return
+			}
+
+			n++
+
+			key := fnKey(fn) + "|TryPop after the catch address"
+			if n > 1 {
+				key += "#" + sprintInt(n)
+			}
+
+			escape := pathAvoiding(in, nil, func(i ssa.Instruction) bool { return emitOf(i) == opTryPop }, isSuccessReturn)
+			if escape != nil {
+				r.Violate("R-C10-4", key, w.pos(in.Pos()), "the address a failing try body jumps to is placed where no TryPop follows (return at "+w.pos(escape.Pos())+"): after an error the try entry stays on the try stack, the enclosing try pops the wrong entry, and a later error jumps to a stale catch address")
+			} else {
+				r.Discharge("R-C10-4", key, w.pos(in.Pos()), "")
+			}
+		})
+	}
+
 	// ------------------------------------------------------------ R-C10-3
 	if cr := w.ssaFunc(cp, "Compiler.compileReturn"); cr == nil {
 		r.Anchor("R-C10-3", "compiler.Compiler.compileReturn")
